@@ -154,6 +154,10 @@ type Unit struct {
 	pureSorts    map[string]*Sort
 	assumedAt    []string
 	nLoops       int
+	retOrd       int
+	immMaps      map[string]bool
+	modsTop      bool
+	modCache     map[*FuncUnit]*modSet
 	modStack     []*FuncUnit
 	loopStmtStack []ast.Stmt
 	loopKeys     map[ast.Stmt]map[string]bool
@@ -184,7 +188,7 @@ func NewUnit(p *Program, fu *FuncUnit) *Unit {
 		closureBind: map[types.Object]*ast.FuncLit{}, usedActions: map[*AnchorAction]bool{}, usedLoops: map[string]bool{},
 		callees: map[string]bool{}, trusted: map[string]bool{}, sentinels: map[string]bool{}, litOf: map[string]*ast.FuncLit{},
 		loopEnd: map[ast.Node][]*AnchorAction{}, lastIdx: map[ast.Stmt]Term{}, isParam: map[types.Object]bool{}, clausePos: map[*Clause]token.Pos{},
-		tracedKeys: map[string]bool{}, pureSorts: map[string]*Sort{}, compGoT: map[string]types.Type{}, epochAlloc: map[int]Term{}, loopKeys: map[ast.Stmt]map[string]bool{}, panicSites: map[string]bool{}}
+		tracedKeys: map[string]bool{}, pureSorts: map[string]*Sort{}, compGoT: map[string]types.Type{}, epochAlloc: map[int]Term{}, loopKeys: map[ast.Stmt]map[string]bool{}, panicSites: map[string]bool{}, modCache: map[*FuncUnit]*modSet{}}
 	x.mode = "seq"
 	if fu.Contract != nil && fu.Contract.Mode != "" {
 		x.mode = fu.Contract.Mode
@@ -406,10 +410,12 @@ func (x *Unit) boundComp(comp string, t Term, alloc Term) {
 	}
 	switch {
 	case strings.HasPrefix(comp, "F:"):
+		// fields of objects allocated so far point to objects allocated so far; nothing is said about objects
+		// that do not exist yet (callees may allocate them and set their fields)
 		el := Select(t, T("bv!r", SInt))
 		el.Sort = t.Sort.Elem
 		if p := x.refBound(el, gt, alloc, 0); p != "" {
-			x.assumes = append(x.assumes, "(forall ((bv!r Int)) (! "+p+" :pattern ("+el.S+")))")
+			x.assumes = append(x.assumes, "(forall ((bv!r Int)) (! (=> (and (< 0 bv!r) (<= bv!r "+alloc.S+")) "+p+") :pattern ("+el.S+")))")
 		}
 	case strings.HasPrefix(comp, "MV:"):
 		mt := gt.(*types.Map)
@@ -417,7 +423,7 @@ func (x *Unit) boundComp(comp string, t Term, alloc Term) {
 		el := Select(Select(t, T("bv!m", SInt)), T("bv!k", ks))
 		el.Sort = x.U.SortOf(mt.Elem())
 		if p := x.refBound(el, mt.Elem(), alloc, 0); p != "" {
-			x.assumes = append(x.assumes, "(forall ((bv!m Int) (bv!k "+ks.Name+")) (! "+p+" :pattern ("+el.S+")))")
+			x.assumes = append(x.assumes, "(forall ((bv!m Int) (bv!k "+ks.Name+")) (! (=> (and (< 0 bv!m) (<= bv!m "+alloc.S+")) "+p+") :pattern ("+el.S+")))")
 		}
 	}
 }
@@ -462,7 +468,31 @@ func exemptFromHavocAll(comp string) bool {
 		strings.HasPrefix(comp, "TR:") || strings.HasPrefix(comp, "TT:") || comp == "clk" || strings.HasPrefix(comp, "L:") || comp == "$nlocks" || comp == "alloc"
 }
 
+// immutableMapComps: contents of maps held in fields declared "immutable contents <maptype>"
+func (x *Unit) immutableMapComps() map[string]bool {
+	if x.immMaps != nil {
+		return x.immMaps
+	}
+	x.immMaps = map[string]bool{}
+	for _, fd := range x.fieldDecls {
+		if fd.Discipline == "immutable" && fd.Contents != "" {
+			func() {
+				defer func() { recover() }()
+				t := x.resolveTypeAny(fd.Contents)
+				if mt, ok := t.Underlying().(*types.Map); ok {
+					d, v, c, _, _ := x.mapComps(mt)
+					x.immMaps[d], x.immMaps[v], x.immMaps[c] = true, true, true
+				}
+			}()
+		}
+	}
+	return x.immMaps
+}
+
 func (x *Unit) isImmutableComp(comp string) bool {
+	if strings.HasPrefix(comp, "M") && x.immutableMapComps()[comp] {
+		return true
+	}
 	if strings.HasPrefix(comp, "F:") {
 		name := comp[2:]
 		if fd, ok := x.fieldDecls[name]; ok && fd.Discipline == "immutable" {
